@@ -820,3 +820,101 @@ Proof.
   exists (map t_name l1), (map t_name l2), (map t_name l3).
   rewrite Es, map_app. cbn [map]. rewrite map_app. cbn [map]. now rewrite Er.
 Qed.
+
+(* ---------- the callers establish the distinct-keys invariant: the out-of-fuel arms are dead ---------- *)
+Theorem topo_sort_never_out_of_fuel tables : topo_sort tables <> TopoOutOfFuel.
+Proof.
+  unfold topo_sort. destruct tables as [|t0 ts]; [discriminate|].
+  match goal with |- context [kahn ?d] => destruct (kahn d) as [order|] eqn:Ek end.
+  - destruct (Nat.eqb _ _); discriminate.
+  - exfalso. revert Ek. apply kahn_fuel_enough. apply bt_sorted_nodup, bt_of_list_sorted.
+Qed.
+
+Definition delete_deps (acts : list action) (all : list (string * table_def)) : deps_map :=
+  let dnames := bs_of_list (map delete_name (filter is_delete_table acts)) in
+  map (fun n =>
+    (n, match bt_get n all with
+        | Some td => bs_of_list (filter (fun rt => (mem_str rt dnames && negb (String.eqb rt n))%bool)
+                                        (fk_targets td))
+        | None => []
+        end)) dnames.
+
+Lemma sort_delete_tables_unfold acts all :
+  sort_delete_tables acts all =
+  let dels := filter is_delete_table acts in
+  if Nat.leb (List.length dels) 1 then acts
+  else match kahn (delete_deps acts all) with
+       | None => acts
+       | Some order =>
+           put_back acts (sort_by_key (fun a =>
+             match find_index (String.eqb (delete_name a)) (rev order) with Some i => i | None => O end) dels)
+       end.
+Proof. reflexivity. Qed.
+
+Theorem delete_deps_fuel_enough acts all : kahn (delete_deps acts all) <> None.
+Proof.
+  apply kahn_fuel_enough. unfold delete_deps. cbn zeta. rewrite map_map. cbn [fst].
+  rewrite map_id. apply bs_of_list_nodup.
+Qed.
+
+(* ---------- 8. refutations of the false parts of C06 ---------- *)
+Definition w_icol (n : string) : column_def := mkCol n (TSimple Integer) false None None None None None None.
+Definition w_pkcol (n : string) : column_def :=
+  mkCol n (TSimple Integer) false None None (Some (PKBool true)) None None None.
+Definition w_fkcol (n r : string) : column_def :=
+  mkCol n (TSimple Integer) false None None None None None (Some (FKStr r)).
+
+(* D2: user(id pk), post(id pk, user_id fk -> user.id)  ==>  post(id pk, user_id) *)
+Definition w_fk : table_constraint := CForeignKey None ["user_id"] "user" ["id"] None None.
+Definition w_drop_B : schema :=
+  [mkTable "user" None [w_pkcol "id"] [CPrimaryKey false ["id"]];
+   mkTable "post" None [w_pkcol "id"; w_fkcol "user_id" "user.id"] [CPrimaryKey false ["id"]; w_fk]].
+Definition w_drop_T : schema := [mkTable "post" None [w_pkcol "id"; w_icol "user_id"] []].
+
+Lemma C06_delete_before_remove_fk_plan :
+  consistent w_drop_B = true /\
+  diff_actions w_drop_B w_drop_T = Ok [DeleteTable "user"; RemoveConstraint "post" w_fk] /\
+  exists s1, apply_action w_drop_B (DeleteTable "user") = Ok s1 /\ consistent s1 = false.
+Proof. split; [|split; [|eexists; split]]; vm_compute; reflexivity. Qed.
+
+Lemma C06_delete_before_remove_fk_refuted :
+  exists B T, loader_accepts B = true /\ loader_accepts T = true /\
+              plan_stepwise_ok B T = false /\ known_drop_before_unreference B T = true.
+Proof. exists w_drop_B, w_drop_T. repeat split; vm_compute; reflexivity. Qed.
+
+(* D1: t(id pk, a, b) + index(a,b)  ==>  t(id pk, a) + index(a) *)
+Definition w_shrunk_B : schema :=
+  [mkTable "t" None [w_pkcol "id"; w_icol "a"; w_icol "b"] [CPrimaryKey false ["id"]; CIndex None ["a"; "b"]]].
+Definition w_shrunk_T : schema :=
+  [mkTable "t" None [w_pkcol "id"; w_icol "a"] [CIndex None ["a"]]].
+
+Lemma C06_shrunk_constraint_plan :
+  consistent w_shrunk_B = true /\
+  diff_actions w_shrunk_B w_shrunk_T =
+    Ok [DeleteColumn "t" "b"; RemoveConstraint "t" (CIndex None ["a"; "b"]); AddConstraint "t" (CIndex None ["a"])] /\
+  exists s1, apply_action w_shrunk_B (DeleteColumn "t" "b") = Ok s1 /\
+             target_present s1 (RemoveConstraint "t" (CIndex None ["a"; "b"])) = false.
+Proof. split; [|split; [|eexists; split]]; vm_compute; reflexivity. Qed.
+
+Lemma C06_shrunk_constraint_refuted :
+  exists B T, loader_accepts B = true /\ loader_accepts T = true /\
+              plan_stepwise_ok B T = false /\ known_shrunk_constraint B T = true.
+Proof. exists w_shrunk_B, w_shrunk_T. repeat split; vm_compute; reflexivity. Qed.
+
+(* a target with an FK cycle between two new tables is accepted by the loader but refused by the planner
+   (DiffCycle), so the unrestricted statement fails even outside the two known classes *)
+Definition w_cycle_T : schema :=
+  [mkTable "a" None [w_pkcol "id"; w_fkcol "b_id" "b.id"] [];
+   mkTable "b" None [w_pkcol "id"; w_fkcol "a_id" "a.id"] []].
+
+Lemma C06_fk_cycle_refuted :
+  exists B T, loader_accepts B = true /\ loader_accepts T = true /\
+              diff_actions B T = Err DiffCycle /\ plan_stepwise_ok B T = false /\
+              known_drop_before_unreference B T = false /\ known_shrunk_constraint B T = false.
+Proof. exists [], w_cycle_T. repeat split; vm_compute; reflexivity. Qed.
+
+Lemma C06_full_statement_refuted :
+  ~ (forall B T, loader_accepts B = true -> loader_accepts T = true -> plan_stepwise_ok B T = true).
+Proof.
+  intro H. specialize (H w_drop_B w_drop_T eq_refl eq_refl). vm_compute in H. discriminate.
+Qed.
